@@ -26,6 +26,15 @@ MULTIUSE = os.environ.get("VF_DTD_MULTIUSE", "0") == "1"
 # with the address of a new task of the same class.  Excluded by construction unless VF_DTD_ABA=1.
 ABA_OK = os.environ.get("VF_DTD_ABA", "0") == "1"
 SUBWINDOW_OK = os.environ.get("VF_DTD_SUBWINDOW", "0") == "1"
+# known finding (corpus/C03/regress/sched_again_livelock.txt): a DTD writer that follows readers is scheduled together with
+# them and busy-retries (data_lookup -> PARSEC_HOOK_RETURN_AGAIN -> reschedule with demoted priority); schedulers that hand
+# the demoted / just re-pushed task out first (ip, llp; flaky with ap) re-select it forever and the readers never run.
+# Excluded unless VF_DTD_SCHED_ALL=1.
+SCHED_ALL = os.environ.get("VF_DTD_SCHED_ALL", "0") == "1"
+LIVELOCK_SCHEDS = ("ip", "llp", "ap")
+# known finding (corpus/C03/regress/three_ranks_hang.txt): on >= 3 ranks plain insertion scripts hang (flaky).  Unless
+# VF_DTD_RANKS3=1 the multi-rank scripts use 2 ranks.
+RANKS3 = os.environ.get("VF_DTD_RANKS3", "0") == "1"
 
 
 # ----------------------------------------------------------------------------------------------- reference
@@ -270,7 +279,7 @@ PROFILES = {
     # p_read: probability that a flow is INPUT; remaining mass split OUTPUT / INOUT
     "c03": dict(max_tasks=60, max_tiles=8, p_read=0.34, spin_max=60, p_spin=0.3, p_sub=0.03, p_pool=0.03, p_epoch=0.02,
                 p_flush=0.05, p_wait=0.04, p_again=0.08, p_delay=0.0),
-    "c04": dict(max_tasks=50, max_tiles=3, p_read=0.72, spin_max=2000, p_spin=0.9, p_sub=0.02, p_pool=0.01, p_epoch=0.01,
+    "c04": dict(max_tasks=50, max_tiles=3, p_read=0.78, spin_max=30000, p_spin=0.95, p_sub=0.01, p_pool=0.01, p_epoch=0.01,
                 p_flush=0.01, p_wait=0.02, p_again=0.05, p_delay=0.0),
     "c17": dict(max_tasks=24, max_tiles=6, p_read=0.3, spin_max=40, p_spin=0.2, p_sub=0.0, p_pool=0.03, p_epoch=0.03,
                 p_flush=0.12, p_wait=0.05, p_again=0.05, p_delay=0.08),
@@ -551,7 +560,7 @@ def all_sub(s, t):
 
 @st.composite
 def proc_cfgs(draw, ranks=1, tmin=1, tmax=16, scheds=None):
-    sc = scheds or SCHEDS
+    sc = scheds or (SCHEDS if SCHED_ALL else [x for x in SCHEDS if x not in LIVELOCK_SCHEDS])
     return dict(ranks=ranks, threads=draw(st.integers(tmin, tmax)), sched=sc[draw(st.integers(0, len(sc) - 1))])
 
 
